@@ -2,12 +2,19 @@ SPECIFICATION Spec
 CONSTANTS
   Energies <- QEnergies
   MaxLen = 4
+  MaxChanges = 4
   Tols <- QTols
+  FTols <- QTols
   Windows <- QWindows
   Targets <- QTargets
   Limits <- QLimits
+  Scales <- QScales
+  Exits <- QExits
+  EmitLens <- QLens
+  Extra <- QExtra
 INVARIANT WindowRespected
 INVARIANT VTRCOGisOr
 INVARIANT TolMonotone
 INVARIANT EmptyHistory
+INVARIANT Homogeneous
 INVARIANT Emit
